@@ -1,10 +1,12 @@
 import Driver.Kern
+import Driver.Preds
 open Sunrise.Driver
 
 def evalLine (line : String) : String :=
   match (line.trimAscii.toString.splitOn " ").filter (· ≠ "") with
   | "D" :: rest => evalD rest
   | "K" :: rest => evalK rest
+  | "P" :: rest => evalP rest
   | _ => "bad-op"
 
 partial def loop (h : IO.FS.Stream) (out : IO.FS.Stream) : IO Unit := do
